@@ -265,3 +265,12 @@ pub fn evm_run(
         outcome
     ));
 }
+
+/// The EVM rules and the transaction-hash rule in force at a height under the configured network
+/// (`engine::hardforks`), as text.
+pub fn fork_rules(block_number: u64) -> (String, bool) {
+    (
+        format!("{:?}", crate::engine::get_evm_spec(block_number)),
+        crate::engine::use_rlp_hash_for_tx_hash(block_number),
+    )
+}
